@@ -70,6 +70,41 @@ def count_leaves(c):
     return 1
 
 
+def gen_hist(rng, comment=False, max_steps=7):
+    """one TextBlock (or Comment) object under a history of operations; every step is observed
+    (lines, str) so that state which outlives a call (caches, shared buffers) is seen"""
+    case = {'op': 'tb.hist', 'content': gen_content(rng, 1), 'comment': comment}
+    if not comment and rng.random() < 0.35:
+        case['header'] = gen_content(rng, 3)
+    kinds = ['append', 'iadd', 'trim', 'trim', 'add', 'pour', 'pour', 'obs', 'obs', 'setlines']
+    if comment:
+        kinds += ['indent_none'] if rng.random() < 0.3 else []
+    else:
+        kinds += ['indent', 'indent', 'indent_none', 'set_indentor']
+    steps = []
+    for _ in range(rng.randint(1, max_steps)):
+        k = rng.choice(kinds)
+        if k in ('append', 'iadd', 'add'):
+            steps.append({'k': k, 'c': gen_content(rng, 2)})
+        elif k == 'trim':
+            steps.append({'k': 'trim', 'end_only': rng.random() < 0.5})
+        elif k == 'indent':
+            steps.append({'k': 'indent', 'ind': gen_indentizer(rng)})
+        elif k == 'indent_none':
+            steps.append({'k': 'indent'})
+        elif k == 'set_indentor':
+            steps.append({'k': 'set_indentor', 'ind': gen_indentizer(rng)})
+        elif k == 'setlines':
+            steps.append({'k': 'setlines', 'ls': [rng.choice(['', '', ' ', 'a', '  b', 'c  ', '\t']) if rng.random() < 0.6
+                                                   else gen_line(rng) for _ in range(rng.randint(0, 5))]})
+        elif k == 'pour':
+            steps.append({'k': 'pour', 'in_list': rng.random() < 0.6})
+        else:
+            steps.append({'k': 'obs'})
+    case['steps'] = steps
+    return case
+
+
 class _Obj:
     def __init__(self, s):
         self.s = s
@@ -183,6 +218,39 @@ def run_text_op(case):
         r = cond_chunk(to_py(case['preamble']), to_py(case['content']), to_py(case['empty']),
                        all_or_nothing=case.get('aon', False), **kw)
         return None if r is None else list(r.lines)
+    if op == 'tb.hist':
+        if case.get('comment'):
+            t = Comment(to_py(case['content']))
+        else:
+            h = to_py(case['header']) if 'header' in case else None
+            t = TextBlock(to_py(case['content']), header=h)
+        out = []
+        for st in case['steps']:
+            k = st['k']
+            extra = None
+            if k == 'append':
+                r = t.append(to_py(st['c']))
+                assert r is t
+            elif k == 'iadd':
+                t0 = t
+                t += to_py(st['c'])
+                if t is not t0:
+                    out.append({'lines': ['<+= returned another object>'], 'str': '', 'extra': None})
+                    continue
+            elif k == 'trim':
+                t.trim(st.get('end_only', False))
+            elif k == 'indent':
+                t.indent(to_indentizer(st['ind']) if 'ind' in st else None)
+            elif k == 'set_indentor':
+                t.set_indentor(to_indentizer(st['ind']))
+            elif k == 'setlines':
+                t.lines = list(st['ls'])
+            elif k == 'add':
+                extra = list((t + to_py(st['c'])).lines)
+            elif k == 'pour':
+                extra = list(TextBlock([t]).lines) if st.get('in_list') else list(TextBlock(t).lines)
+            out.append({'lines': list(t.lines), 'str': str(t), 'extra': extra})
+        return out
     if op == 'ind.to_list':
         return to_indentizer(case['ind']).to_list(to_py(case['content']))
     if op == 'ind.to_str':
